@@ -189,6 +189,9 @@ func (r *protoReplay) pviolate(kind, what string, step int, extra map[string]any
 	if r.w.setup.Fast {
 		mode = "fastsync"
 	}
+	if r.w.setup.Resh {
+		mode = "reshare-" + r.w.setup.Shape + "-" + mode
+	}
 	cased := r.cased
 	if len(r.cls) > 0 {
 		cased = r.cls[0] // primary root-cause class (all of them are in the detail)
@@ -324,7 +327,7 @@ func (r *protoReplay) roundDeal(i int, s PStep) {
 			if (rb != nil) != e.Has || kvString(got) != kvString(exp) || len(n.resps) > 1 {
 				r.driftf("responses-emitted", i, e.H, kvString(exp), kvString(got))
 			}
-			if early != e.Early {
+			if early != e.Early && w.parties[e.H].ni >= 0 { // a leaving node pushes nothing: not observable
 				r.driftf("early-transition", i, e.H, e.Early, early)
 			}
 		}
@@ -376,6 +379,9 @@ func (r *protoReplay) roundResp(i int, s PStep) {
 		if len(n.justs) > 0 {
 			jb = n.justs[len(n.justs)-1]
 			extra = "just"
+		}
+		if o.done && o.res == nil && o.err == nil {
+			extra = "left" // the Protocol of a leaving node ended with an empty result
 		}
 		r.compareOut("protocol-response-round-outcome", i, e, o, extra)
 		if jb != nil {
@@ -437,7 +443,11 @@ func (r *protoReplay) roundJust(i int, s PStep) {
 	}
 	for _, e := range s.Exp {
 		if e.Called {
-			r.compareOut("protocol-final-outcome", i, e, r.outs[e.H], "none")
+			extra := "none"
+			if o := r.outs[e.H]; o.done && o.res == nil && o.err == nil {
+				extra = "left"
+			}
+			r.compareOut("protocol-final-outcome", i, e, r.outs[e.H], extra)
 		}
 	}
 	if s.Req != nil {
